@@ -472,7 +472,7 @@ def run(ctx):
     else:
         pairs = [(n, md[n]['latest_version']) for n in store.sample_names(ctx.rng, 40, md)]
     store.parallel(ctx, work_store, pairs)
-    store.parallel(ctx, work_generated, [ctx.seed * 211 + i for i in range(ctx.budget(60, 3000))])
+    store.parallel(ctx, work_generated, [ctx.seed * 211 + i for i in range(ctx.budget(60, 600))])
 
 
 def replay(ctx, rec):
